@@ -141,10 +141,9 @@ impl Stream for ScriptStream {
                 cx.waker().wake_by_ref();
                 Poll::Pending
             }
-            Some(Ev::Err) => {
-                self.evs.clear();
-                Poll::Ready(Some(Err(Box::new(EntityFailure))))
-            }
+            // (what follows an error in the script is yielded by later polls: whether a stream
+            // stays failed is up to the script, see `stay_failed`)
+            Some(Ev::Err) => Poll::Ready(Some(Err(Box::new(EntityFailure)))),
         }
     }
 }
@@ -486,6 +485,18 @@ pub fn classify_err(e: &BoxError) -> Out {
     let s = e.to_string();
     if s == "entity failure" {
         return Out::ErrEntity;
+    }
+    // The crate's two length errors are private types; their `Debug` form (type and field name)
+    // identifies them independently of how their message is worded.
+    let d = format!("{:?}", e);
+    let field = |prefix: &str| -> Option<u64> {
+        d.strip_prefix(prefix)?.trim_end_matches([' ', '}']).trim().parse().ok()
+    };
+    if let Some(n) = field("StreamTooShortError { remaining:") {
+        return Out::ErrShort(n);
+    }
+    if let Some(n) = field("StreamTooLongError { extra:") {
+        return Out::ErrLong(n);
     }
     if let Some(r) = s
         .strip_prefix("stream ended with ")
